@@ -2,7 +2,7 @@
    (C12_model) on it.
 
    For every "dump <design> <phase>" block it prints
-     CHK <design> <phase> wf=.. rel=.. pin=.. domok=.. infer=.. closed=.. [detail]
+     CHK <design> <phase> wf=.. rel=.. pin=.. domok=.. infer=.. closed=.. sinks=.. [detail]
      RES <design> <phase> flagged=<i,j,..> crossing=<0|1>
    wf      : extracted wf on the netlist and clocks_ok on the clock table (parents listed first)
    rel     : the model's relation (getOutputClockRelation) equals the dumped real relation of every output
@@ -10,6 +10,7 @@
    domok   : extracted domains_ok on the REAL inferred map
    infer   : the transcribed worklist (C++ pop order) reproduces the REAL map entry by entry
    closed  : the influence sets computed by infl_fix are closed (so they are exactly `influences`)
+   sinks   : extracted sinks_clocked: every register / pin / memory port with a connected input has a clock
    flagged : the model's flag rule evaluated on the REAL map
    crossing: the specification verdict has_crossing_b on the influence sets *)
 open C12_model
@@ -107,8 +108,8 @@ let finish (b : blk) =
   let s_fun p = pm_list sets p in
   let closed = infl_closed n s_fun in
   let crossing = has_crossing_b n s_fun in
-  Printf.printf "CHK %s %s wf=%s rel=%s pin=%s domok=%s infer=%s closed=%s%s\n" b.design b.phase
-    (b2s wf_ok) (b2s !rel_ok) (b2s !pin_ok) (b2s dom_ok) (b2s !infer_ok) (b2s closed)
+  Printf.printf "CHK %s %s wf=%s rel=%s pin=%s domok=%s infer=%s closed=%s sinks=%s%s\n" b.design b.phase
+    (b2s wf_ok) (b2s !rel_ok) (b2s !pin_ok) (b2s dom_ok) (b2s !infer_ok) (b2s closed) (b2s (sinks_clocked n))
     (if !detail = [] then "" else " " ^ String.concat ";" (List.rev !detail));
   Printf.printf "RES %s %s flagged=%s crossing=%s\n" b.design b.phase
     (String.concat "," (List.map string_of_int fl)) (b2s crossing)
